@@ -2,7 +2,7 @@
    closed theorems about event histories, with the conclusion expressed by the executable spec oracle
    (Spec.converged), and the "nothing was lost" histories that satisfy the no-underestimate invariant. *)
 From Coq Require Import Lia ZifyBool ZifyN ZifyNat PeanoNat Nnat.
-From Dv Require Import Model Spec Refresh RibFacts Net Graph Conv.
+From Dv Require Import Model Spec Refresh RibFacts Net Graph Conv Quiet.
 Open Scope N_scope.
 
 (* ------------------------------------------------------------------------------------------ *)
@@ -304,4 +304,36 @@ Proof.
   - split; [exact Hok | reflexivity].
   - apply fixedb_fixed_point; assumption.
   - apply maxdist_bound.
+Qed.
+
+(* ------------------------------------------------------------------------------------------ *)
+(* the whole state comes to rest                                                              *)
+(* ------------------------------------------------------------------------------------------ *)
+Lemma fixed_point_fixedb : forall S, net_ok S -> fixed_point S -> fixedb S = true.
+Proof.
+  intros S [Hnd Hall] Hfp. unfold fixedb. apply forallb_forall. intros ri Hri.
+  pose proof (in_getr S ri Hnd Hri) as Gi.
+  apply forallb_forall. intros j Hj.
+  destruct (getr S j) as [rj|] eqn:Gj; [|reflexivity].
+  apply forallb_forall. intros d _.
+  change (cost_via (rrib ri) d j) with (rv (rrib ri) d j).
+  change (offered (self ri) (rrib rj) d) with (newc (self ri) (rrib rj) d).
+  rewrite (Hfp (self ri) j ri rj d Gi Gj Hj). apply N.eqb_refl.
+Qed.
+
+(* from ANY well-formed state, 2 INF + maxdist + 1 rounds later (and ever after) every router has processed the
+   current advertisement of each neighbour — nothing is left to announce — and the tables are the shortest-path tables *)
+Theorem reaches_full_fixed_point : forall S n evs,
+  net_ok S -> settled (topo_of S) = true ->
+  (2 * N.to_nat INF + maxdist (topo_of S) + 1 <= n)%nat -> arounds (topo_of S) n S evs ->
+  fixedb (run S evs) = true /\ converged (run S evs) = true.
+Proof.
+  intros S n evs Hok Hs Hn Hr.
+  destruct (full_fixed_point (topo_of S) Hs (N.of_nat (maxdist (topo_of S))) n S evs) as (Hfp & Hc & Hok' & Hg').
+  - split; [exact Hok | reflexivity].
+  - apply maxdist_bound.
+  - lia.
+  - exact Hr.
+  - split; [apply fixed_point_fixedb; assumption|].
+    apply conv_converged; [exact Hok'|]. rewrite Hg'. exact Hc.
 Qed.
